@@ -13,7 +13,7 @@ use vcore::sgr::{self, MColor, MStyle};
 use vcore::vt;
 use vcore::xml::{self, Element};
 
-const RULE: &str = "Inputs: UTF-8 texts from the C07 generator (text, whitespace/C0 controls, G-SGR sequences, non-SGR sequences) plus XML-special characters, entity look-alikes, wide / zero-width / combining characters, CRLF, lone CR, TAB, C1 characters; U+000C, U+FFFE, U+FFFF and DEL are replaced before rendering; x {VGA, Win10} x default fg/bg in {palette, indexed, RGB} x background on/off. Oracle: the output parses with an independent strict XML 1.0 parser (and, as a second opinion, every document of the run is fed to Python's expat); height == lines*18+20; text of the foreground row per line == visible text of the reference parser split at LF with one CR before the LF dropped (compared after XML end-of-line normalisation); every class has a rule; per character the declarations reached through the style sheet (fill, text-decoration-color, bold, italic, underline kinds, line-through, opacity) == the reference SGR style with invert applied against the configured defaults, RGB through the palette / xterm formula; background row fills == effective backgrounds in order. Non-trivial = at least 2 differently styled runs and at least one newline or XML-special character (distinct by case).";
+const RULE: &str = "Inputs: UTF-8 texts from the C07 generator (text, whitespace/C0 controls, G-SGR sequences, non-SGR sequences) plus XML-special characters, entity look-alikes, wide / zero-width / combining characters, CRLF, lone CR, TAB, C1 characters; U+000C, U+FFFE, U+FFFF and DEL are replaced before rendering; x {VGA, Win10} x default fg/bg in {palette, indexed, RGB} x background on/off x min_width_px, the builder methods called in a generated order. Oracle: the output parses with an independent strict XML 1.0 parser (and, as a second opinion, every document of the run is fed to Python's expat); height == lines*18+20; text of the foreground row per line == visible text of the reference parser split at LF with one CR before the LF dropped (compared after XML end-of-line normalisation); every class has a rule; per character the declarations reached through the style sheet (fill, text-decoration-color, bold, italic, underline kinds, line-through, opacity) == the reference SGR style with invert applied against the configured defaults, RGB through the palette / xterm formula; background row fills == effective backgrounds in order. Non-trivial = at least 2 differently styled runs and at least one newline or XML-special character (distinct by case).";
 
 #[derive(Clone, Debug, Serialize, Deserialize)]
 struct Case {
@@ -25,6 +25,9 @@ struct Case {
     /// Term::min_width_px (None = the default); widens the canvas, nothing else
     #[serde(default)]
     min_width: Option<usize>,
+    /// order in which the builder methods are called (a permutation index); the result must not depend on it
+    #[serde(default)]
+    order: u8,
 }
 
 fn rgb_of(c: MColor, pal: &[Rgb; 16]) -> Rgb {
@@ -136,11 +139,27 @@ fn sanitize(s: &str) -> String {
 
 fn render(case: &Case) -> String {
     let pal = if case.win10 { anstyle_svg::WIN10_CONSOLE } else { anstyle_svg::VGA };
-    let term = Term::new().palette(pal).fg_color(sgr::to_color(case.fg)).bg_color(sgr::to_color(case.bg)).background(case.background);
-    let term = match case.min_width {
-        Some(w) => term.min_width_px(w),
-        None => term,
-    };
+    // the five builder calls, applied in the order selected by `order` (Lehmer code of a permutation)
+    let mut steps: Vec<u8> = vec![0, 1, 2, 3, 4];
+    let mut code = case.order as usize % 120;
+    let mut seq = Vec::new();
+    for n in (1..=5).rev() {
+        seq.push(steps.remove(code % n));
+        code /= n;
+    }
+    let mut term = Term::new();
+    for step in seq {
+        term = match step {
+            0 => term.palette(pal),
+            1 => term.fg_color(sgr::to_color(case.fg)),
+            2 => term.bg_color(sgr::to_color(case.bg)),
+            3 => term.background(case.background),
+            _ => match case.min_width {
+                Some(w) => term.min_width_px(w),
+                None => term,
+            },
+        };
+    }
     term.render_svg(&case.text)
 }
 
@@ -306,11 +325,12 @@ fn arb_case() -> impl Strategy<Value = (Case, u64)> {
         prop_oneof![2 => Just(MColor::Ansi(0)), 1 => arb_color()],
         prop::bool::weighted(0.7),
         prop_oneof![3 => Just(None), 1 => prop::sample::select(vec![0usize, 1, 719, 100_000]).prop_map(Some)],
+        0u8..120,
     )
-        .prop_map(|((items, removed), win10, fg, bg, background, min_width)| {
+        .prop_map(|((items, removed), win10, fg, bg, background, min_width, order)| {
             let bytes = gen::render(&items);
             let text = sanitize(&String::from_utf8_lossy(&bytes));
-            (Case { text, win10, fg, bg, background, min_width }, removed)
+            (Case { text, win10, fg, bg, background, min_width, order }, removed)
         })
 }
 
@@ -368,7 +388,7 @@ fn run(args: &Args, rep: &mut Report) {
     let fixed: Vec<&str> = fixed.iter().copied().chain(big.iter().map(|s| s.as_str())).collect();
     for t in fixed {
         for (win10, background) in [(false, true), (true, false)] {
-            let case = Case { text: t.to_owned(), win10, fg: MColor::Ansi(7), bg: MColor::Idx(17), background, min_width: None };
+            let case = Case { text: t.to_owned(), win10, fg: MColor::Ansi(7), bg: MColor::Idx(17), background, min_width: None, order: (t.len() % 120) as u8 };
             acc.eval();
             acc.nontrivial_distinct();
             let r = rt::guarded(|| {
@@ -410,7 +430,7 @@ fn run(args: &Args, rep: &mut Report) {
                 }
             }
             for background in [true, false] {
-                let case = Case { text: text.clone(), win10: false, fg: MColor::Rgb(1, 0x10, 0), bg: MColor::Rgb(0x11, 0, 0), background, min_width: Some(0) };
+                let case = Case { text: text.clone(), win10: false, fg: MColor::Rgb(1, 0x10, 0), bg: MColor::Rgb(0x11, 0, 0), background, min_width: Some(0), order: 77 };
                 acc.eval();
                 acc.nontrivial_distinct();
                 let r = rt::guarded(|| {
